@@ -13,6 +13,7 @@ mod util;
 mod c01;
 mod c02;
 mod c03;
+mod c07;
 mod chan;
 
 #[global_allocator]
@@ -62,6 +63,7 @@ fn main() {
             "C01" => c01::replay(&v["replay"]),
             "C02" => c02::replay(&v["replay"]),
             "C03" => c03::replay(&v["replay"]),
+            "C07" => c07::replay(&v["replay"]),
             _ => {
                 eprintln!("no replay for {}", id);
                 std::process::exit(2);
@@ -82,6 +84,7 @@ fn main() {
             "C01" => c01::run(thorough),
             "C02" => c02::run(thorough),
             "C03" => c03::run(thorough),
+            "C07" => c07::run(thorough),
             other => {
                 eprintln!("unknown check {}", other);
                 2
